@@ -132,9 +132,10 @@ class Evaluator:
                 while fn not in HASH_DIGEST and fn and hops < 4:
                     # a repo helper whose whole body is `return <hash constructor>()`
                     t = self.prog._resolve_abs(fn) or self.prog.resolve_name(module, fn)
-                    if isinstance(t, FunctionInfo) and len(t.node.body) == 1 and isinstance(t.node.body[0], ast.Return) \
-                            and isinstance(t.node.body[0].value, ast.Call) and not t.node.body[0].value.args:
-                        fn = self._callee_text(t.node.body[0].value.func, t.module, depth + 1)
+                    rets = [x for x in ast.walk(t.node) if isinstance(x, ast.Return)] if isinstance(t, FunctionInfo) else []
+                    if len(rets) == 1 and rets[0] in t.node.body and isinstance(rets[0].value, ast.Call) and not rets[0].value.args:
+                        # a repo helper that returns `<hash constructor>()` on its single, unconditional return
+                        fn = self._callee_text(rets[0].value.func, t.module, depth + 1)
                         hops += 1
                     else:
                         break
